@@ -1121,3 +1121,60 @@ def m_next(ctx, args):
         eng.write_ref(ctx.st, it, ("iter_adv", shape, uid))
     c = eng.bdd.var(("hasnext", uid))
     return ("ite", c, some(body), NONE)
+
+
+# ---------------------------------------------------------------- allocation sinks / fallible pushes (C16)
+def _alloc(ctx, size, what):
+    ctx.eng.obligations.append({
+        "kind": "AllocSize", "pc": ctx.st.pc, "cond": None, "expected": None, "ops": [size], "what": what,
+        "site": ctx.site, "ln": ctx.term["ln"], "callpath": ctx.fr.callpath, "exp": ctx.term["exp"]})
+
+
+@model("std::vec::Vec::with_capacity")
+def m_vec_with_capacity(ctx, args):
+    _alloc(ctx, args[0], "Vec::with_capacity")
+    return ("vec", ())
+
+
+@model("std::vec::Vec::reserve", "std::vec::Vec::reserve_exact")
+def m_vec_reserve(ctx, args):
+    _alloc(ctx, args[1], "Vec::reserve")
+    return UNIT
+
+
+@model("std::string::String::with_capacity")
+def m_string_with_capacity(ctx, args):
+    _alloc(ctx, args[0], "String::with_capacity")
+    return ("string", ())
+
+
+@model("std::vec::from_elem")
+def m_vec_from_elem(ctx, args):
+    _alloc(ctx, args[1], "vec![x; n]")
+    return ("vec_repeat", args[0], args[1])
+
+
+@model("arrayvec::ArrayVec::push", "arrayvec::ArrayVec::insert")
+def m_arrayvec_push(ctx, args):
+    # documented to panic when the vector is full
+    ctx.eng.obligations.append({
+        "kind": "PushFull", "pc": ctx.st.pc, "cond": None, "expected": None, "ops": [val(ctx, args[0])], "what": ctx.oq,
+        "site": ctx.site, "ln": ctx.term["ln"], "callpath": ctx.fr.callpath, "exp": ctx.term["exp"]})
+    old = val(ctx, args[0])
+    ctx.eng.write_ref(ctx.st, args[0], ("pushed", old, args[-1]))
+    return UNIT
+
+
+@model("arrayvec::ArrayVec::try_push")
+def m_arrayvec_try_push(ctx, args):
+    old = val(ctx, args[0])
+    c = ctx.eng.bdd.var(("is_full", old))
+    ctx.eng.write_ref(ctx.st, args[0], ("pushed", old, args[1]))
+    return ("ite", c, err(("capacity_error", args[1])), ok(UNIT))
+
+
+@model("std::vec::Vec::push")
+def m_vec_push(ctx, args):
+    old = val(ctx, args[0])
+    ctx.eng.write_ref(ctx.st, args[0], ("pushed", old, args[1]))
+    return UNIT
